@@ -508,11 +508,14 @@ def run(pid, tier, out):
                'running interpreter over all code points on every run)'],
            'theorems': [{'name': n_, 'closed_under_global_context': c, 'assumptions': a} for n_, c, a in ps['theorems']],
            'proof_error': ps['error'], 'hygiene_hits': hyg,
-           'evaluations': stats['evaluations'] + hstats['evaluations'],
-           'distinct_nontrivial': len(stats['distinct']) + len(hstats['distinct']),
+           'evaluations': stats['evaluations'] + hstats['evaluations'] + pn_cases + sn_cases + dn,
+           'distinct_nontrivial': len(stats['distinct']) + len(hstats['distinct']) + int(pstats.get('distinct_cases') or 0)
+           + int(sstats.get('distinct') or 0),
            'rule': 'mutated requests (1-3 mutations of a valid template: body structure/types/bounds, malformed JSON, query values, '
                    'repeated/added/dropped parameters, headers, path segments, method) in 3 kinds of state; distinct by '
-                   '(state, method, path, query, body, headers); plus %d histories x %d modelled requests compared with the Coq model'
+                   '(state, method, path, query, body, headers); boundary variants of every valid write body over HTTP; plus %d histories '
+                   'x %d modelled requests compared with the Coq model; plus the value-parser cases (distinct strings), the schema '
+                   'documents (distinct documents) and the decoded bodies compared with Model/Parse.v, Model/Json.v, Model/Decode.v'
                    % (len(cases), n_ops),
            'samples': [jsonable(fuzz.mutate(random.Random(k), fuzz.valid_requests()[k * 7 % 30])) for k in range(3)],
            'traces_validated_against_impl': len(cases) - len(disagreements) if model_ok and corr_error is None else 0,
